@@ -62,10 +62,33 @@ def through_link_pattern(rng, tr):
     return gen.join_segments(segs, None, lead=False, trail=False)
 
 
+def mixed_globstar_pattern(rng, tr):
+    """One pattern holding both a `**` and a `***` (in either order) around a written segment: each recursive segment keeps its
+    own rule about symlinked directories while the walks they start are interleaved."""
+    names = sorted({p.split('/')[-1] for p in tr.snap})
+    if not names:
+        return None
+    first, second = rng.choice([((('gstar',),), (('gstarlong',),)), ((('gstarlong',),), (('gstar',),))])
+    segs = [first, tuple(('lit', ch) for ch in rng.choice(names)), second]
+    r = rng.random()
+    if r < 0.3:
+        segs.append(tuple(('lit', ch) for ch in rng.choice(names)))
+    elif r < 0.45:
+        segs.append((('star',),))
+    if rng.random() < 0.25:
+        segs.insert(0, tuple(('lit', ch) for ch in rng.choice(names)))
+    return gen.join_segments(segs, None, lead=False, trail=False)
+
+
 def link_pattern(rng, tr):
     """Patterns with recursive segments in first / middle / last position and next to literal link names."""
-    if rng.random() < 0.3:
+    r0 = rng.random()
+    if r0 < 0.3:
         t = through_link_pattern(rng, tr)
+        if t:
+            return t
+    elif r0 < 0.45:
+        t = mixed_globstar_pattern(rng, tr)
         if t:
             return t
     ents = tr.lexical()
@@ -101,12 +124,19 @@ def symlink_positions(root, rel):
     return [i for i in range(len(parts)) if os.path.islink(os.path.join(root, *parts[:i + 1]))]
 
 
-def check_glob(ctx, tr, rng, k, j, mon):
-    toks = link_pattern(rng, tr)
+def check_glob(ctx, tr, rng, k, j, mon, toks=None, fn=None):
+    toks = link_pattern(rng, tr) if toks is None else toks
     if not toks or gen.ambiguous_adjacency(toks):
         return
     text = gen.ser(toks)
-    fn = ['EXTGLOB', 'GLOBSTAR'] + [f for f in ('FOLLOW', 'GLOBSTARLONG', 'MATCHBASE', 'DOTGLOB') if rng.random() < 0.3]
+    given = fn is not None
+    if fn is None:
+        fn = ['EXTGLOB', 'GLOBSTAR'] + [f for f in ('FOLLOW', 'GLOBSTARLONG', 'MATCHBASE', 'DOTGLOB') if rng.random() < 0.3]
+    else:
+        fn = ['EXTGLOB', 'GLOBSTAR'] + [f for f in fn if f not in ('EXTGLOB', 'GLOBSTAR')]
+    if not given and any(t[0] == 'gstarlong' for t in toks) and any(t[0] == 'gstar' for t in toks) and 'GLOBSTARLONG' not in fn and rng.random() < 0.8:
+        fn.append('GLOBSTARLONG')   # a pattern mixing `**` and `***` is only interesting when `***` is recognised
+        ctx.count('mixed_globstar_patterns')
     has_long = any(t[0] == 'gstarlong' for t in toks) and 'GLOBSTARLONG' in fn
     following = ('FOLLOW' in fn and 'GLOBSTARLONG' not in fn) or has_long or ('FOLLOW' in fn and 'GLOBSTARLONG' in fn and 'MATCHBASE' in fn)
     cyclic = tr.has_dir_cycle()
@@ -258,9 +288,51 @@ def check_wcmatch(ctx, tr, rng, k, mon):
                 return
 
 
+# hand-built cycle-free trees in which recursive walks started by different segments of one pattern interleave, and every
+# combination of `**` / `***` around written segments (the deterministic part: it does not depend on the number of shards)
+FIXED_TREES = [
+    [('A', 'd', None), ('A/m', 'd', None), ('A/m/z', 'f', None), ('A/lnk', 'l', '../C'), ('B', 'd', None), ('B/m', 'd', None),
+     ('B/m/z', 'f', None), ('B/lnk', 'l', '../C'), ('C', 'd', None), ('C/m', 'd', None), ('C/m/z', 'f', None)],
+    [('m', 'd', None), ('m/a', 'd', None), ('m/a/m', 'd', None), ('m/a/m/z', 'f', None), ('m/l', 'l', '../t'), ('t', 'd', None),
+     ('t/m', 'd', None), ('t/m/z', 'f', None), ('t/k', 'l', 'm'), ('a', 'd', None), ('a/m', 'l', '../t/m')],
+    [('x', 'd', None), ('x/m', 'd', None), ('x/m/l', 'l', '../../y'), ('x/m/z', 'f', None), ('y', 'd', None), ('y/m', 'd', None),
+     ('y/m/z', 'f', None), ('y/q', 'd', None), ('y/q/m', 'd', None), ('y/q/m/z', 'f', None), ('l0', 'l', 'y/q')],
+]
+
+
+def fixed_scenarios(ctx, mon):
+    GS, GL_ = (('gstar',),), (('gstarlong',),)
+    lit = lambda x: tuple(('lit', c) for c in x)  # noqa: E731
+    idx = 0
+    for ti, spec in enumerate(FIXED_TREES):
+        pats = []
+        for g1 in (GS, GL_):
+            for mid in (lit('m'), (('star',),), lit('lnk'), lit('l'), (('q',),)):
+                for g2 in (GS, GL_, None):
+                    for last in (None, lit('z'), (('star',),)):
+                        segs = [g1, mid] + ([g2] if g2 else []) + ([last] if last else [])
+                        pats.append(segs)
+                        pats.append([(('star',),)] + segs)
+        todo = []
+        for pi, segs in enumerate(pats):
+            for fi, fn in enumerate((('GLOBSTARLONG',), ('GLOBSTARLONG', 'FOLLOW'), (), ('FOLLOW',), ('GLOBSTARLONG', 'DOTGLOB'))):
+                idx += 1
+                if ctx.mine(idx):
+                    todo.append((segs, fn))
+        if not todo:
+            continue
+        with T.Tree(spec, 'c06f-') as tr:
+            for segs, fn in todo:
+                toks = gen.join_segments(segs, None, lead=False, trail=False)
+                with ctx.case(timeout=20, label=('fixed', ti, gen.ser(toks), fn)):
+                    check_glob(ctx, tr, ctx.rng_for('fx', ti, gen.ser(toks), fn), 0, 0, mon, toks=toks, fn=list(fn))
+                    ctx.count('fixed_scenario_cases')
+
+
 def run(ctx):
     quick = ctx.quick
     mon = FSMonitor.get()
+    fixed_scenarios(ctx, mon)
     k = 0
     limit = 120 if quick else 10 ** 9
     while k < limit and not ctx.out_of_time():
@@ -287,20 +359,10 @@ def replay(ctx, w):
     with T.Tree(spec, 'c06r-') as tr:
         if 'ast' in w:
             toks, fn = w['ast'], list(w['flags'])
-            orig = globals()['link_pattern']
-            globals()['link_pattern'] = lambda rng, tr_: toks
-
-            class Fx(random.Random):
-                def __init__(self):
-                    super().__init__(0)
-                    self.vals = [0.0 if f in fn else 0.99 for f in ('FOLLOW', 'GLOBSTARLONG', 'MATCHBASE', 'DOTGLOB')]
-
-                def random(self):
-                    return self.vals.pop(0) if self.vals else 0.99
-            try:
-                check_glob(ctx, tr, Fx(), 0, 1, mon)
-            finally:
-                globals()['link_pattern'] = orig
+            for sd in range(4):   # (the candidate sample of the REALPATH rule is drawn from the rng)
+                check_glob(ctx, tr, random.Random(sd), 0, 1, mon, toks=tuple(tuple(t) if isinstance(t, list) else t for t in toks), fn=fn)
+                if ctx.violations:
+                    break
         else:
             check_wcmatch(ctx, tr, random.Random(0), 0, mon)
     return ctx.violations or None
